@@ -92,7 +92,12 @@ func c11Type1(c *h.Ctx, n int) {
 		det := map[string]any{"type": 1, "challenge": h.Hex(chal), "nonce": h.Hex(nonce), "blind1": h.Hex(b1), "blind2": h.Hex(b2)}
 		sA, errA := client.CreateTokenRequestWithBlind(chal, nonce, kid, iss.TokenKey(), b1)
 		sA2, errA2 := client.CreateTokenRequestWithBlind(chal, nonce, kid, iss.TokenKey(), append([]byte{}, b1...))
-		sB, errB := client.CreateTokenRequestWithBlind(chal, nonce, kid, iss.TokenKey(), b2) // created while A is outstanding
+		// B is created while A is outstanding, from buffers the caller overwrites right afterwards (odd runs)
+		chalB, nonceB, kidB, blindB := clone(chal), clone(nonce), clone(kid), clone(b2)
+		sB, errB := client.CreateTokenRequestWithBlind(chalB, nonceB, kidB, iss.TokenKey(), blindB)
+		if i%2 == 1 {
+			scribble(chalB, nonceB, kidB, blindB)
+		}
 		c.Count("type1:fixed-blind", 3, h.Hex(nonce)+h.Hex(b1))
 		if errA != nil || errA2 != nil || errB != nil {
 			c.Violation("request creation with a supplied blind fails", det)
@@ -154,7 +159,20 @@ func c11Type5(c *h.Ctx, n int) {
 		// A is created, then B with other blinds while A is still outstanding, then A is finalized
 		sA, errA := client.CreateTokenRequestWithBlinds(chal, nonces, kid, iss.TokenKey(), bl1)
 		respA, errE := iss.Evaluate(sA.Request())
-		sB, errB := client.CreateTokenRequestWithBlinds(chal, nonces, kid, iss.TokenKey(), bl2)
+		chalB, kidB := clone(chal), clone(kid)
+		var noncesB, blB [][]byte
+		for j := range nonces {
+			noncesB = append(noncesB, clone(nonces[j]))
+		}
+		for j := range bl2 {
+			blB = append(blB, clone(bl2[j]))
+		}
+		sB, errB := client.CreateTokenRequestWithBlinds(chalB, noncesB, kidB, iss.TokenKey(), blB)
+		if i%2 == 1 { // the caller overwrites its buffers once the request exists
+			scribble(chalB, kidB)
+			scribble(noncesB...)
+			scribble(blB...)
+		}
 		sA2, errA2 := client.CreateTokenRequestWithBlinds(chal, nonces, kid, iss.TokenKey(), bl1)
 		c.Count("type5:fixed-blinds", 3, h.Hex(nonces[0])+h.Hex(bl1[0]))
 		if errA != nil || errB != nil || errA2 != nil || errE != nil {
@@ -208,7 +226,9 @@ func c11Type2(c *h.Ctx, n int) {
 			return client.CreateTokenRequestWithBlind(chal, nonce, kid, &key.PublicKey, b, salt)
 		}
 		sA, errA := mk(b1)
-		sB, errB := mk(b2)
+		chalB, nonceB, kidB, blindB, saltB := clone(chal), clone(nonce), clone(kid), clone(b2), clone(salt)
+		sB, errB := client.CreateTokenRequestWithBlind(chalB, nonceB, kidB, &key.PublicKey, blindB, saltB)
+		scribble(chalB, nonceB, kidB, blindB, saltB) // the caller overwrites its buffers once the request exists
 		sA2, errA2 := mk(append([]byte{}, b1...))
 		c.Count("type2:fixed-blind-and-salt", 3, h.Hex(nonce)+h.Hex(b1[:8]))
 		if errA != nil || errB != nil || errA2 != nil {
